@@ -28,7 +28,7 @@ let props : (string * prop) list = [
            nontrivial = (fun f -> if field_opt "tlsobs" f <> None then P_c11.nontrivial f else P_sess.nontrivial f) };
   "C09", sess_prop P_sess.check_C09 P_sess.nontrivial;
   "C14", { tag = "c14"; check = P_c14.check; cross_header = P_c14.cross_header; cross_footer = P_c14.cross_footer; nontrivial = P_c14.nontrivial };
-  "C03", sess_prop P_sess.check_C03 P_sess.nontrivial;
+  "C03", sess_prop (P_sess.with_budget P_sess.check_C03) P_sess.nontrivial;
   "C03", { tag = "rd"; check = P_rd.check; cross_header = ""; cross_footer = ""; nontrivial = P_rd.nontrivial };
   "C03", { tag = "c14"; check = (fun f -> (fst (P_c14.check f), None)); cross_header = ""; cross_footer = ""; nontrivial = P_c14.nontrivial };
   "C18", sess_prop P_sess.check_C18 P_sess.nontrivial;
